@@ -281,6 +281,9 @@ pub struct Profile {
     pub resources: bool,
     pub pipelines: bool,
     pub pipeline_range: (usize, usize),
+    /// task shaders may dispatch with two payload types (accepted by the front end; only used where the result is
+    /// compared with itself)
+    pub multi_payload: bool,
     pub max_funcs: usize,
     pub expr_depth: u32,
     pub stmt_depth: u32,
@@ -314,6 +317,7 @@ impl Profile {
             resources: false,
             pipelines: false,
             pipeline_range: (1, 3),
+            multi_payload: false,
             max_funcs: 7,
             expr_depth: 5,
             stmt_depth: 3,
@@ -2003,8 +2007,10 @@ impl<'a> Gen<'a> {
                     let m = self.fresh("ms_main");
                     let p = self.fresh("ps_main");
                     self.raw(vec![t("struct "), Frag::N(va), t(" {\n    float4 position : SV_Position;\n    float2 texcoord : TEXCOORD;\n};\n\n")]);
+                    // the other attribute before or after numthreads
+                    let attrs = if self.pick(2) == 0 { format!("[numthreads({}, 1, 1)]\n[outputtopology(\"triangle\")]\nvoid ", nt.0.max(1)) } else { format!("[outputtopology(\"triangle\")]\n[numthreads({}, 1, 1)]\nvoid ", nt.0.max(1)) };
                     let mut f = vec![
-                        t(&format!("[numthreads({}, 1, 1)]\n[outputtopology(\"triangle\")]\nvoid ", nt.0.max(1))),
+                        t(&attrs),
                         Frag::N(m),
                         t("(uint3 dtid : SV_DispatchThreadID, out vertices "),
                         Frag::N(va),
@@ -2040,16 +2046,34 @@ impl<'a> Gen<'a> {
                         Frag::N(lds),
                         t(";\n\n"),
                     ]);
+                    // a second payload type dispatched from the same task shader
+                    let second = if self.prof.multi_payload && self.pick(2) == 0 {
+                        let pl2 = self.fresh("Payload");
+                        let lds2 = self.fresh("lds_payload");
+                        self.raw(vec![t("struct "), Frag::N(pl2), t(" {\n    uint start_location;\n    uint extra;\n};\n\ngroupshared "), Frag::N(pl2), t(" "), Frag::N(lds2), t(";\n\n")]);
+                        Some((pl2, lds2))
+                    } else {
+                        None
+                    };
                     let mut f = vec![t("[numthreads(64, 1, 1)]\nvoid "), Frag::N(tk), t("(uint3 dtid : SV_DispatchThreadID) {\n    float4 sink = float4(0.0, 0.0, 0.0, 0.0);\n")];
                     f.extend(body(self, &mut reachable));
                     f.push(t("    "));
                     f.push(Frag::N(lds));
-                    f.push(t(".start_location = dtid.x;\n    DispatchMesh(4u, 1u, 1u, "));
+                    f.push(t(".start_location = dtid.x;\n"));
+                    if let Some((_, lds2)) = second {
+                        f.push(t("    "));
+                        f.push(Frag::N(lds2));
+                        f.push(t(".start_location = dtid.y;\n    if (dtid.x == 0u) {\n        DispatchMesh(2u, 1u, 1u, "));
+                        f.push(Frag::N(lds2));
+                        f.push(t(");\n        return;\n    }\n"));
+                    }
+                    f.push(t("    DispatchMesh(4u, 1u, 1u, "));
                     f.push(Frag::N(lds));
                     f.push(t(");\n}\n\n"));
                     self.raw(f);
+                    let mesh_attrs = if self.pick(2) == 0 { "[numthreads(64, 1, 1)]\n[outputtopology(\"triangle\")]\nvoid " } else { "[outputtopology(\"triangle\")]\n[numthreads(64, 1, 1)]\nvoid " };
                     let mut f = vec![
-                        t("[numthreads(64, 1, 1)]\n[outputtopology(\"triangle\")]\nvoid "),
+                        t(mesh_attrs),
                         Frag::N(m),
                         t("(uint3 dtid : SV_DispatchThreadID, in payload "),
                         Frag::N(pl),
